@@ -49,7 +49,9 @@ RULE = ('programs = all placements of <= r reference statements (alphabet x targ
 ASSUMPTIONS = [
     'internal seam (read-only): Interpreter.gosub_stack (to skip continuation comparison when the original '
     'stopped inside a GOSUB: RENUM clears the stacks, which the statement does not forbid), '
-    'Interpreter.on_error and BasicEvents.all (only to label a host exception by the active trap)',
+    'Interpreter.on_error and BasicEvents.all (only to label a host exception by the active trap), '
+    'Interpreter.error_num / error_pos (to recognise a rejected RENUM whose error was taken by the '
+    'program\'s own ON ERROR trap instead of being printed)',
     'which RENUM arguments are accepted is not prescribed by the statement: a RENUM answered with a BASIC '
     'error is counted as rejected and nothing more is required of it',
     'the line reported in "Undefined line x in y" may be the old or the new number of the holding line',
@@ -471,6 +473,11 @@ def _run_b(part, ns, program, spec, conts, kinds, argname, args, ref, case, seco
         raise CheckError('first RUN differs between two sessions: %r vs %r' % (r, ref['outs'][0]))
     label = trap_label(s, args[1])
     cmd = (b'RENUM ' + args_text(args)).strip()
+    it = _interp(s)
+    try:
+        err_before = (it.error_num, it.error_pos)
+    except AttributeError as e:
+        raise CheckError('internal seam changed: %s' % e)
     r = R.run(s, cmd)
     text = b' / '.join(listing(program)).decode('latin-1')
     if r.exc is not None:
@@ -480,13 +487,19 @@ def _run_b(part, ns, program, spec, conts, kinds, argname, args, ref, case, seco
         part.outcome('host-exception')
         raise Abort()
     tcls = _cls_target(ns, spec, args[1])
+    if r.err is None and (it.error_num, it.error_pos) != err_before and it.error_pos == -1:
+        # RENUM failed in direct mode and the program's active ON ERROR trap took the error
+        part.outcome('rejected-error-trapped')
+        part.classes.add('args:%s:rejected' % argname)
+        return
     if r.err is not None:
         part.outcome('rejected-%s' % r.err)
         part.classes.add('args:%s:rejected' % argname)
         return
     part.outcome('renumbered')
     part.classes.add('args:%s:renumbered' % argname)
-    part.classes.add(('stmt:%s:%s' % (kinds, tcls)) if len(spec) < 2 else ('multi:%s' % kinds))
+    part.classes.add(('stmt:%s:%s' % (kinds, tcls)) if len(spec) < 2
+                     else ('multi:%s' % '+'.join(sorted(set(x[1] for x in spec)))))
     mapping = plan(program, *args)
     expected, missing = renumber(program, mapping)
     check_messages(r.out, missing, mapping, (), part,
